@@ -48,7 +48,7 @@ func (f *Gethash) Call(s *slip.Scope, args slip.List, depth int) (result slip.Ob
 	if !ok {
 		slip.TypePanic(s, depth, "hash-table", args[1], "hash-table")
 	}
-	v, has := ht[args[0]]
+	v, has := ht[ht.Key(args[0])]
 	var ho slip.Object
 	if has {
 		ho = slip.True
@@ -63,5 +63,5 @@ func (f *Gethash) Place(s *slip.Scope, args slip.List, value slip.Object) {
 	if !ok {
 		slip.TypePanic(s, 0, "hash-table", args[1], "hash-table")
 	}
-	ht[args[0]] = value
+	ht[ht.Key(args[0])] = value
 }
